@@ -42,3 +42,25 @@ Example C13_lookalike_files_not_grouped :
   let c i f l := {| c_id := i; c_pos := mkpos 1 l; c_nil := [n f]; c_nonnil := [use_node l]; c_func := None; c_test := false; c_src := nopos |} in
   gkey_eqb (group_key (c 1 2 10)) (group_key (c 2 3 11)) = false /\ gkey_eqb (group_key (c 1 2 10)) (group_key (c 3 2 12)) = true.
 Proof. exact lookalike_files_not_grouped. Qed.
+
+(* Pretty-printing only inserts colour escape sequences and an `error: ` prefix: stripping them gives back the plain message
+   (model M15, for every message that contains no ESC byte itself; tied to PrettyPrintErrorMessage by evaluating `pretty`
+   inside Coq on the messages the real function renders) *)
+From Coq Require Import NArith.
+From NM Require Import Pretty.
+From NP Require Import PrettyProofs.
+Theorem C13_pretty_strip : forall m, escfree m -> strip SNormal (pretty m) = (error_prefix ++ m)%list.
+Proof. exact pretty_strip. Qed.
+Print Assumptions C13_pretty_strip.
+
+(* the delimiter passes are invisible to the remover on EVERY byte string and from every state of the remover *)
+Theorem C13_delimiter_pass_invisible : forall d co cc, safe d -> forallb is_param co = true -> forallb is_param cc = true ->
+  forall l s, strip s (dpass d (esc co) (esc cc) Outside l) = strip s l.
+Proof. intros d co cc Hd Hco Hcc l s. exact (proj1 (dpass_invisible d co cc Hd Hco Hcc l) s). Qed.
+Print Assumptions C13_delimiter_pass_invisible.
+
+(* non-vacuity: "(found NILABLE) x" is ESC-free and all of it is wrapped *)
+Example C13_pretty_example :
+  nil_pass (cons 40 (cons 102 (cons 111 (cons 117 (cons 110 (cons 100 (cons 32 (cons 78 (cons 73 (cons 76 (cons 65 (cons 66 (cons 76 (cons 69 (cons 41 (cons 32 (cons 120 nil)))))))))))))))))%N
+  = (esc (cons 49 nil) ++ (cons 40 (cons 102 (cons 111 (cons 117 (cons 110 (cons 100 (cons 32 (cons 78 (cons 73 (cons 76 (cons 65 (cons 66 (cons 76 (cons 69 (cons 41 nil))))))))))))))) ++ esc (cons 48 nil) ++ (cons 32 (cons 120 nil)))%list%N.
+Proof. vm_compute. reflexivity. Qed.
